@@ -6,7 +6,7 @@
   verif.py replay <file> [--verbose]
   verif.py selfcheck                      determinism of the simulator itself
 """
-import sys, os, json, subprocess, hashlib, shutil, time, glob, signal, atexit, re
+import sys, os, json, subprocess, hashlib, shutil, time, glob, signal, atexit, re, threading
 from concurrent.futures import ThreadPoolExecutor
 
 ROOT = os.path.dirname(os.path.abspath(__file__))
@@ -251,6 +251,10 @@ class Pool:
                    "--scratch", wscratch, "--deadline", "%.1f" % remaining]
             errf = open(os.path.join(wscratch, "stderr.txt"), "ab")
             p = subprocess.Popen(cmd, stdout=subprocess.PIPE, stderr=errf, text=True, errors="replace")
+            # backstop: a worker that neither finishes nor dies (it has its own watchdogs) is killed well after the deadline
+            killer = threading.Timer(remaining + 240.0, p.kill)
+            killer.daemon = True
+            killer.start()
             last_start, last_case, done = None, (-1, 1), False
             for line in p.stdout:
                 if line.startswith("START "):
@@ -271,6 +275,7 @@ class Pool:
                 elif line.startswith("DONE"):
                     done = True
             rc = p.wait()
+            killer.cancel()
             errf.close()
             if not done:
                 # the worker died inside run last_start: that is a verdict about that run; carry on after it
@@ -288,7 +293,10 @@ class Pool:
 
 
 def qsim_lines(cmd):
-    r = sh(cmd)
+    try:
+        r = sh(cmd, timeout=1500)
+    except subprocess.TimeoutExpired:
+        return 2, "SHRINK harness-error (timeout)"
     return r.returncode, r.stdout
 
 
